@@ -131,8 +131,12 @@ func listingFor(typ string, names []string) string {
 	return sb.String()
 }
 
-func entryFor(typ string, nameJSON string) string {
+func entryFor(typ string, nameJSON string, digest ...string) string {
 	if typ == "ollama" {
+		if len(digest) > 0 && digest[0] != "-" {
+			d, _ := json.Marshal(digest[0])
+			return `{"name":` + nameJSON + `,"model":` + nameJSON + `,"size":1,"digest":` + string(d) + `}`
+		}
 		return `{"name":` + nameJSON + `,"model":` + nameJSON + `,"size":1}`
 	}
 	return `{"id":` + nameJSON + `,"object":"model","created":1733000000,"owned_by":"harness"}`
@@ -208,6 +212,9 @@ func genDisc(t *rapid.T) DiscCase {
 		GoodA3: subset(t, "good-a3", 1),
 		Probes: rapid.IntRange(1, 3).Draw(t, "probes"),
 	}
+	if c.Kind == "duplicate" && rapid.IntRange(0, 2).Draw(t, "dup-ollama") == 0 {
+		c.TypeA = "ollama" // the provider whose listings carry digests
+	}
 	good := []byte(listingFor(c.TypeA, c.GoodA))
 	switch c.Kind {
 	case "unparseable":
@@ -251,7 +258,13 @@ func genDisc(t *rapid.T) DiscCase {
 				nm = string(q)
 				last = nm
 			}
-			entries = append(entries, entryFor(c.TypeA, nm))
+			// ollama-style entries carry a digest in one of the spellings seen in the wild: with an
+			// algorithm prefix, bare hex, short, empty, or absent; repeated names get differing ones
+			dg := "-"
+			if c.TypeA == "ollama" {
+				dg = rapid.SampledFrom([]string{"-", "-", fmt.Sprintf("sha256:%064d", i), fmt.Sprintf("%064x", 1000+i), fmt.Sprintf("abc%d", i), "", ":", "sha256:"}).Draw(t, "digest")
+			}
+			entries = append(entries, entryFor(c.TypeA, nm, dg))
 		}
 		if c.Kind == "duplicate" && len(entries) >= 1 && rapid.Bool().Draw(t, "dup-first") {
 			entries = append(entries, entries[0])
